@@ -60,6 +60,16 @@ def scripts(tier, seed, scale=1):
         for n in range(1, 5):
             for wds in itertools.product(["raise", "lower"], repeat=n):
                 out.append(("cnt:%s:%s" % (v, "".join(w[0] for w in wds)), ["r begin", "r cnt " + v] + ["r " + w for w in wds]))
+    # array of references: n elements replaced in ONE assignment by a rotation of the content / by the content itself,
+    # while the array holds the only reference to an object (sizes below, at and above the 256 byte side store of
+    # mpt_buffer_set: 32 and 33 pointers)
+    for n in (2, 3, 8, 31, 32, 33, 34, 40, 61, 64):
+        head = ["r begin", "r obj meta 1", "r obj meta 1", "r arr new %d" % n]
+        for rel in ([], ["r ext 1 unref"], ["r ext 0 unref"], ["r ext 1 unref", "r ext 0 unref"]):
+            for act in (["r arr rot 1"], ["r arr rot %d" % (n - 1)], ["r arr self"], ["r arr rot 1", "r arr rot 1"], ["r take 0 1", "r arr rot 1", "r drop 0"]):
+                out.append(("arr:%d:%s:%s" % (n, "".join(x[6] for x in rel), "|".join(x[2:] for x in act)),
+                            head + rel + act + ["r arr drop", "r end"]))
+                out.append(("arrend:%d:%s:%s" % (n, "".join(x[6] for x in rel), "|".join(x[2:] for x in act)), head + rel + act + ["r end"]))
     depth = 3 if tier == "quick" else 4
     # exhaustive histories per kind
     for kind in ("meta", "buf"):
@@ -288,7 +298,8 @@ class _NN:
         for i in range(2):
             ops += ["n add %d" % i, "n config %d" % i] + ["n change %d %s" % (i, s_) for s_ in ("0", "1", "none")]
         ops += ["n clear 0", "n clear 1", "n fini"]
-        for c0, s0, s1 in (("1", "0", "1"), ("1", "0", "0"), ("max", "0", "1"), ("2", "none", "0")):
+        # "file": a descriptor epoll refuses — the input is never held by the notifier
+        for c0, s0, s1 in (("1", "0", "1"), ("1", "0", "0"), ("max", "0", "1"), ("2", "none", "0"), ("1", "file", "0")):
             head = ["n begin", "n input %s %s" % (c0, s0), "n input 1 %s" % s1]
             for hist in itertools.product(ops, repeat=3 if tier == "quick" else 4):
                 out.append(("nn:%s%s%s:%s" % (c0, s0, s1, "|".join(x[2:] for x in hist)), head + list(hist) + ["n end"]))
@@ -301,11 +312,11 @@ class _NN:
         r = gen.rng(id, tier, seed, "nn-random")
         for k in range((300 if tier == "quick" else 4000) * scale):
             n = r.choice([1, 2, 3])
-            lines = ["n begin"] + ["n input %s %s" % (r.choice(["1", "1", "2", "0", "max"]), r.choice(["0", "1", "2", "none"])) for _ in range(n)]
+            lines = ["n begin"] + ["n input %s %s" % (r.choice(["1", "1", "2", "0", "max"]), r.choice(["0", "1", "2", "none", "file"])) for _ in range(n)]
             rops = []
             for i in range(n):
                 rops += ["n add %d" % i, "n add %d" % i, "n config %d" % i] + ["n change %d %s" % (i, s_) for s_ in ("0", "1", "2", "none")] + ["n nextfail %d %d" % (i, b) for b in (0, 1)]
-            rops += ["n clear %d" % s_ for s_ in range(3)] + ["n wait", "n next", "n wait", "n next", "n fini"]
+            rops += ["n clear %d" % s_ for s_ in range(3)] + ["n clear file", "n wait", "n next", "n wait", "n next", "n fini"]
             if r.random() < 0.6:
                 lines.append("n ready %d" % r.randrange(3))
             for _ in range(r.choice([4, 8, 16, 30])):
